@@ -121,6 +121,10 @@ func (c16) Generate(tier string, yield func(*engine.Case) bool) {
 			get(v("n"), gen.NumT(0)), get(v("ml"), gen.NumT(0), gen.NumT(1)), gen.Infix("+", get(v("mn"), gen.NumT(0)), get(v("mn"), gen.NumT(1))), gen.CallT("if", gen.BoolT(true), v("mn"), v("mn")),
 			gen.CallT("if", gen.BoolT(true), v("mn"), gen.NumT(1)), get(gen.CallT("if", gen.BoolT(false), v("mn"), v("mn")), gen.NumT(3)),
 		}
+		// an optional used as the INDEX / key of a plain container
+		progs = append(progs, gen.SubT(v("mpn"), v("ms")), gen.SubT(v("ln"), v("mn")), gen.CallT("isset", v("mpn"), v("ms")), get(v("mpn"), v("ms"), gen.NumT(0)),
+			get(v("ln"), v("mn"), gen.NumT(0)), gen.Infix("+", gen.SubT(v("mpn"), get(v("ms"), gen.StrT("a"))), gen.NumT(1)), gen.SubT(gen.MapT(gen.StrT("a"), gen.NumT(1)), v("ms")),
+			gen.SubT(gen.MapT(v("ms"), gen.NumT(1)), gen.StrT("a")), gen.Method("isset", v("mpn"), v("ms")))
 		// a container of optionals must never be taken for the same container of plain values
 		for _, pr := range [][2]string{{"mpo", "mpn"}, {"lo", "ln"}, {"oo", "on"}} {
 			use := func(t *gen.Term) *gen.Term {
